@@ -683,6 +683,81 @@ mut("C11", "load_from_input0", PT, """                    var: self.lhs.unwrap()
 mut("C11", "callind_target_not_loaded", PT, "JmpType::BRANCHIND | JmpType::CALLIND => {\n                    let input = match", "JmpType::BRANCHIND => {\n                    let input = match", ["R3|implicit-load|indirect-jump-targets"], "RAM-resident indirect call targets not loaded")
 mut("C11", "callind_lifted_as_call_other", PT, "            BRANCH => IrJmp::Branch(unwrap_label_direct(jmp.goto.unwrap())),", "            BRANCH => IrJmp::Return(IrExpression::Const(Bitvector::zero(apint::BitWidth::w64()))).clone(),", ["R1|jmp|BRANCH"], "branch lifted as another jump kind")
 
+# ---------------- C16
+SU = L + "utils/symbol_utils.rs"
+mut("C16", "break_after_first", SU, """                if symbols.contains_key(dst) {
+                    calls.push((sub.term.name.as_str(), &jmp.tid, symbols.get(dst).unwrap()));
+                }""", """                if symbols.contains_key(dst) {
+                    calls.push((sub.term.name.as_str(), &jmp.tid, symbols.get(dst).unwrap()));
+                    break;
+                }""", ["R1|get_calls_to_symbols|complete-iteration"], "only the first dangerous call per block is reported")
+mut("C16", "cwe332_both_present", L + "checkers/cwe_332.rs", "&& find_symbol(&project.program, secure_initializer_func).is_none()", "&& find_symbol(&project.program, secure_initializer_func).is_some()", ["R2|cwe332|decision"], "PRNG warning when the initializer IS imported")
+mut("C16", "cwe332_components_swapped", L + "checkers/cwe_332.rs", "for (secure_initializer_func, rand_func) in config.pairs.iter() {", "for (rand_func, secure_initializer_func) in config.pairs.iter() {", ["R2|cwe332|decision"], "pair components swapped")
+mut("C16", "cwe426_any_function", L + "checkers/cwe_426.rs", """            if !get_calls_to_symbols(sub, &system_symbol).is_empty()
+                && !get_calls_to_symbols(sub, &privilege_changing_symbols).is_empty()""", """            if !get_calls_to_symbols(sub, &system_symbol).is_empty()
+                || !get_calls_to_symbols(sub, &privilege_changing_symbols).is_empty()""", ["R2|cwe426|decision"], "function reported when it calls only one of the two")
+mut("C16", "cwe782_first_call_only", L + "checkers/cwe_782.rs", "        return generate_cwe_warning(&calls);", "        return generate_cwe_warning(&calls[..1]);", ["R1|cwe782|all-calls-of-a-function"], "only the first ioctl call of a function reported")
+mut("C16", "cwe676_skips_first_sub", L + "checkers/cwe_676.rs", "    for sub in subfunctions.values() {", "    for sub in subfunctions.values().skip(1) {", ["R1|cwe676|all-functions"], "one function is never scanned")
+mut("C16", "callind_counted", SU, """            if let Jmp::Call { target: dst, .. } = &jmp.term {
+                if symbols.contains_key(dst) {
+                    calls.push""", """            if let Jmp::Call { target: dst, .. } | Jmp::Branch(dst) = &jmp.term {
+                if symbols.contains_key(dst) {
+                    calls.push""", ["R1|get_calls_to_symbols|matches-direct-calls"], "branches to a symbol tid counted as calls")
+mut("C16", "cwe426_wrong_literal", L + "checkers/cwe_426.rs", 'find_symbol(&project.program, "system")', 'find_symbol(&project.program, "popen")', ["R2|cwe_426|fixed-symbol"], "another command-execution function instead of system")
+mut("C16", "find_symbol_prefix", SU, "        if name == sym.name {", "        if sym.name.starts_with(name) {", ["R2|find_symbol|name-equality"], "symbols found by prefix")
+mut("C16", "cwe676_dedup_warnings", L + "checkers/cwe_676.rs", "    for (sub_name, jmp_tid, target_name) in dangerous_calls.iter() {", "    for (sub_name, jmp_tid, target_name) in dangerous_calls.iter().take(100) {", ["R1|cwe_676|one-warning-per-call"], "warnings capped")
+mut("C16", "cwe426_two_subs", L + "checkers/cwe_426.rs", """            if !get_calls_to_symbols(sub, &system_symbol).is_empty()
+                && !get_calls_to_symbols(sub, &privilege_changing_symbols).is_empty()""", """            if !get_calls_to_symbols(sub, &system_symbol).is_empty()
+                && project.program.term.subs.values().any(|s| !get_calls_to_symbols(s, &privilege_changing_symbols).is_empty())""", ["R2|cwe426|decision"], "privilege change looked for in any function")
+
+# ---------------- C18
+C560 = L + "checkers/cwe_560.rs"
+C467 = L + "checkers/cwe_467.rs"
+mut("C18", "ge_instead_of_gt", C560, "arg > UPPER_BOUND_CORRECT_UMASK_ARG_VALUE && arg != UPPER_BOUND_CORRECT_CHMOD_ARG_VALUE", "arg >= UPPER_BOUND_CORRECT_UMASK_ARG_VALUE && arg != UPPER_BOUND_CORRECT_CHMOD_ARG_VALUE", ["R1|umask|accepted-set"], "0o177 itself is reported")
+mut("C18", "bound_0o77", C560, "pub static UPPER_BOUND_CORRECT_UMASK_ARG_VALUE: u64 = 0o177;", "pub static UPPER_BOUND_CORRECT_UMASK_ARG_VALUE: u64 = 0o77;", ["R1|umask|accepted-set"], "wrong upper bound constant")
+mut("C18", "no_777_exception", C560, "arg > UPPER_BOUND_CORRECT_UMASK_ARG_VALUE && arg != UPPER_BOUND_CORRECT_CHMOD_ARG_VALUE", "arg > UPPER_BOUND_CORRECT_UMASK_ARG_VALUE", ["R1|umask|accepted-set"], "0o777 is reported")
+mut("C18", "SILENT_equivalent_spelling", C560, "arg > UPPER_BOUND_CORRECT_UMASK_ARG_VALUE && arg != UPPER_BOUND_CORRECT_CHMOD_ARG_VALUE", "!(arg <= 127) && !(arg == UPPER_BOUND_CORRECT_CHMOD_ARG_VALUE)", [], "equivalent spelling of the predicate (must NOT be reported)")
+mut("C18", "sizeof_fixed_8", C467, "if Ok(u64::from(pointer_size)) == param_value.try_to_u64() {", "if Ok(8u64) == param_value.try_to_u64() {", ["R1|sizeof|equals-pointer-size"], "pointer size hard-coded")
+mut("C18", "sizeof_first_param_only", C467, "    for parameter in symbol.parameters.iter() {", "    for parameter in symbol.parameters.iter().take(1) {", ["R1|sizeof|any-parameter"], "only the first parameter examined")
+mut("C18", "store_operands_swapped", C560, "let _ = state.handle_store(address, value, &project.runtime_memory_image);", "let _ = state.handle_store(value, address, &project.runtime_memory_image);", ["R2|umask|def-table|Store"], "store replayed with swapped operands")
+mut("C18", "defs_reversed", C467, "    for def in block.term.defs.iter() {", "    for def in block.term.defs.iter().rev() {", ["R2|sizeof|replays-all-defs-in-order"], "block replayed backwards")
+mut("C18", "warn_on_error", C560, """                    Err(err) => {
+                        let log = LogMessage::new_info(format!(""", """                    Err(err) => {
+                        cwes.push(generate_cwe_warning(sub, jmp, 0));
+                        let log = LogMessage::new_info(format!(""", ["R1|umask|warn-iff"], "warning for undeterminable arguments")
+mut("C18", "sizeof_less_equal", C467, "if Ok(u64::from(pointer_size)) == param_value.try_to_u64() {", "if param_value.try_to_u64().map(|v| v <= u64::from(pointer_size)).unwrap_or(false) {", ["R1|sizeof|equals-pointer-size"], "any value up to the pointer size reported")
+
+# ---------------- C24
+CG = L + "analysis/callgraph.rs"
+mut("C24", "second_traversal_outgoing", CG, "for neighbor in callgraph.neighbors_directed(node, petgraph::Direction::Incoming) {", "for neighbor in callgraph.neighbors_directed(node, petgraph::Direction::Outgoing) {", ["R2|traversal1|one-direction"], "backward traversal follows forward neighbours")
+mut("C24", "union_instead_of_intersection", CG, """            if edges_on_paths_to_target.contains(edge) {
+                Some(callgraph[*edge].tid.clone())
+            } else {
+                None
+            }""", """            if edges_on_paths_to_target.contains(edge) || true {
+                Some(callgraph[*edge].tid.clone())
+            } else {
+                None
+            }""", ["R3|intersection"], "every edge reachable from the source is reported")
+mut("C24", "edges_merged", CG, "callgraph.add_edge(*source_index, *target_index, jump);", "callgraph.update_edge(*source_index, *target_index, jump);", ["R1|edges|parallel-calls-kept"], "two calls to the same callee collapse")
+mut("C24", "backward_from_source", CG, "let mut stack = vec![target_node];", "let mut stack = vec![source_node];", ["R2|traversal1|start-node"], "backward traversal starts at the source")
+M.append(("C24", "visited_shared", {"edits": [
+    {"file": CG, "find": "        if nodes_on_paths_to_target.insert(node) {", "replace": "        if nodes_reachable_from_source.insert(node) {"},
+    {"file": CG, "find": "    let mut nodes_on_paths_to_target = BTreeSet::new();", "replace": "    let mut nodes_on_paths_to_target: BTreeSet<NodeIndex> = BTreeSet::new();\n    let _ = &mut nodes_on_paths_to_target;"}],
+    "expect": ["R2|separate-visited-sets"], "desc": "second traversal reuses the first visited set"}))
+mut("C24", "contains_self", CG, "if edges_on_paths_to_target.contains(edge) {", "if edges_reachable_from_source.contains(edge) {", ["R3|intersection"], "membership tested in the iterated set")
+mut("C24", "skip_self_calls", CG, "                    if let Some(target_index) = tid_to_node_index_map.get(target) {\n                        callgraph.add_edge", "                    if let Some(target_index) = tid_to_node_index_map.get(target).filter(|_| *target != sub.tid) {\n                        callgraph.add_edge", ["R1|edges|iff-direct-call"], "self calls dropped from the call graph")
+mut("C24", "source_target_swapped", CG, "find_call_sequences_from_node_to_target(callgraph, source_node, target_node)\n}", "find_call_sequences_from_node_to_target(callgraph, target_node, source_node)\n}", ["R3|entry|source-and-target"], "query arguments swapped")
+mut("C24", "no_visited_guard", CG, """        if nodes_reachable_from_source.insert(node) {
+            for neighbor in callgraph.neighbors_directed(node, Direction::Outgoing) {
+                stack.push(neighbor);
+            }""", """        nodes_reachable_from_source.insert(node);
+        if stack.len() < 10_000 {
+            for neighbor in callgraph.neighbors_directed(node, Direction::Outgoing) {
+                stack.push(neighbor);
+            }""", ["R2|traversal0|expand-on-first-visit"], "expansion bounded by stack size instead of the visited set")
+mut("C24", "first_block_only", CG, "        for block in &sub.term.blocks {\n            for jump in &block.term.jmps {", "        for block in sub.term.blocks.iter().take(1) {\n            for jump in &block.term.jmps {", ["R1|edges|all-subs-blocks-jumps"], "only calls in entry blocks become edges")
+
 for prop, name, spec in M:
     if name.startswith("SILENT_"):
         spec["silent"] = True
